@@ -23,21 +23,28 @@ NSvc(items) == Cardinality({i \in DOMAIN items : items[i].kind = "svc"})
 AddRes == /\ stage = "gen" /\ Len(prog.items) < MaxItems
           /\ prog' = [prog EXCEPT !.items = Append(@, [kind |-> "res", action |-> "", beh |-> ""])]
           /\ UNCHANGED <<stage, rt, hist, mon>>
+\* a resource whose teardown callback starts one more service task (action "cancel", runs until cancelled) while the owning context
+\* is already being torn down: its finalizer is registered last, so the task is stopped at once, before the earlier callbacks run.
+\* The late task of item i has the number Len(items) + i.
+AddResLate == /\ stage = "gen" /\ Len(prog.items) < MaxItems /\ ~\E i \in DOMAIN prog.items : prog.items[i].kind = "reslate"
+              /\ prog' = [prog EXCEPT !.items = Append(@, [kind |-> "reslate", action |-> "", beh |-> ""])]
+              /\ UNCHANGED <<stage, rt, hist, mon>>
 AddSvc == /\ stage = "gen" /\ Len(prog.items) < MaxItems /\ NSvc(prog.items) < MaxSvc
           /\ \E cb \in Combos : prog' = [prog EXCEPT !.items = Append(@, [kind |-> "svc", action |-> cb[1], beh |-> cb[2]])]
           /\ UNCHANGED <<stage, rt, hist, mon>>
 Emit(r, e) == [r EXCEPT !.evs = Append(@, e)]
 Feed(r) == mon' = LET RECURSIVE F(_, _) F(m, i) == IF i > Len(r.evs) THEN m ELSE F(M!MonNext(m, r.evs[i]), i + 1) IN F(mon, 1)
-ResBefore(i) == {j \in 1..(i - 1) : prog'.items[j].kind = "res"}
+IsRes(it) == it.kind \in {"res", "reslate"}
+ResBefore(i) == {j \in 1..(i - 1) : IsRes(prog'.items[j])}
 \* the block is entered and everything is registered in order; each task starts at once and takes its snapshot
 Start == /\ stage = "gen" /\ NSvc(prog.items) >= 1
          /\ \E nested \in BOOLEAN, ending \in {"return", "exc"} : prog' = [prog EXCEPT !.nested = nested, !.ending = ending]
          /\ LET RECURSIVE Reg(_, _)
                 Reg(r, i) == IF i > Len(prog.items) THEN r
-                             ELSE IF prog.items[i].kind = "res" THEN Reg(Emit(r, [ev |-> "reg", id |-> i]), i + 1)
+                             ELSE IF IsRes(prog.items[i]) THEN Reg(Emit(r, [ev |-> "reg", id |-> i]), i + 1)
                              ELSE Reg(Emit(Emit(r, [ev |-> "svc.start", k |-> i, action |-> prog.items[i].action]),
                                            [ev |-> "svc.snapshot", k |-> i, vis |-> SetToSeq(ResBefore(i))]), i + 1)
-                r0 == [rt EXCEPT !.st = [i \in 1..Len(prog.items) |-> IF prog.items[i].kind = "svc" THEN "run" ELSE "res"],
+                r0 == [rt EXCEPT !.st = [i \in 1..(2 * Len(prog.items)) |-> IF i <= Len(prog.items) /\ prog.items[i].kind = "svc" THEN "run" ELSE "res"],
                                  !.stack = [i \in 1..Len(prog.items) |-> i], !.evs = <<>>]
             IN rt' = Reg(r0, 1)
          /\ stage' = "run" /\ hist' = <<>> /\ Feed(rt')
@@ -60,6 +67,12 @@ Unwind(r) ==
   ELSE LET i == r.stack[Len(r.stack)]
            r1 == [r EXCEPT !.stack = SubSeq(@, 1, Len(@) - 1)] IN
        IF prog.items[i].kind = "res" THEN Unwind(Emit(r1, [ev |-> "cb.begin", id |-> i]))
+       ELSE IF prog.items[i].kind = "reslate" THEN
+            LET k == Len(prog.items) + i
+                allres == {j \in DOMAIN prog.items : IsRes(prog.items[j])}
+                r2 == Emit(Emit(Emit(r1, [ev |-> "cb.begin", id |-> i]), [ev |-> "svc.start", k |-> k, action |-> "cancel"]),
+                           [ev |-> "svc.snapshot", k |-> k, vis |-> SetToSeq(allres)]) IN
+            Unwind(CancelTask(r2, k))           \* the finalizer registered last runs next
        ELSE Unwind(Finalize(r1, i))
 \* an escaping exception cancels the root task group: the block and every task are cancelled, teardown runs under cancellation
 CrashDown(r, k) ==
@@ -80,7 +93,7 @@ Leave ==
   /\ stage = "run" /\ ~rt.left /\ rt.waitfor = 0 /\ rt.stack # <<>> /\ (\A i \in DOMAIN hist : hist[i] # 0) /\ UNCHANGED <<prog, stage>>
   /\ rt' = Unwind(Emit([rt EXCEPT !.evs = <<>>], [ev |-> "exit.begin", cancelled |-> FALSE]))
   /\ hist' = Append(hist, 0) /\ Feed(rt')
-Next == AddRes \/ AddSvc \/ Start \/ Leave \/ \E k \in 1..MaxItems : Release(k)
+Next == AddRes \/ AddResLate \/ AddSvc \/ Start \/ Leave \/ \E k \in 1..MaxItems : Release(k)
 Terminal == stage = "run" /\ rt.left
 MonOk == mon.ok
 \* read on the state: when the block has been left no task is running
